@@ -13,7 +13,9 @@ Ghost machine (M = max packet size, N = endpoint number)
   phase : IDLE | SENDING(widx = words put on the tx stream, onbus = a word is waiting for tx.ready) | AWAIT (completely
           transmitted, waiting for the host's verdict)
   seq   : number of acknowledged packets mod 32 since ep_reset;   nrdy_out : an NRDY was sent and neither an ERDY was
-          completed nor an IN request answered since
+          completed nor an IN request answered since.  An ERDY request is *completed* by a `done` of the handshake generator
+          that follows a cycle in which the generator showed `ready` while the ERDY was being requested (ghost acc): a `done`
+          before that belongs to an earlier packet (e.g. the NRDY just requested) - see the wiring section below.
   events: in_tok = ACK header to endpoint N with number_of_packets != 0;  verdict = phase AWAIT ∧ ACK to N;
           adv = verdict ∧ ¬retry ∧ next_sequence == seq+1;  rty = verdict ∧ ¬adv;
           request = (IDLE ∧ in_tok) ∨ (adv ∧ number_of_packets != 0)
@@ -34,6 +36,15 @@ Statement clause -> ensures
         saying in which of the two packet buffers / read register the k-th accepted word sits): the word with running
         index i on the tx stream (index = words of all acknowledged packets + position in the present packet, so
         retransmissions are included) carries the payload of the i-th accepted input word.  Unbounded.
+
+Caller side (wiring section at the end of the file): the endpoint contract cuts at SuperSpeedEndpointInterface.  Call obligations
+on the real parents, with every interface signal a free input: SuperSpeedEndpointMultiplexer (tx stream + header parameters + ready;
+handshake requests / ready / done incl. simultaneous requesters; broadcast of handshakes_in, receive path, device state),
+USB3ProtocolLayer (endpoint interface <-> link layer data path, TransactionPacketReceiver, header demultiplexer), USB3LinkLayer
+(data_sink + parameters -> DataPacketTransmitter -> header arbiter / RawPacketTransmitter -> transmit arbiter -> physical layer) and
+USBSuperSpeedDevice with two real IN endpoints (end to end from each endpoint's interface to the DataPacketTransmitter /
+TransactionPacketGenerator / TransactionPacketReceiver instances; the `done` that completes an accepted ERDY request is that
+endpoint's ERDY packet being taken - inductive invariant over the generator's header queue).
 
 Scope / assumptions: stream `valid` is 0b0000/0001/0011/0111/1111 and partial words only come with `last`; IN requests
 that arrive while a data packet is still being transmitted (phase SENDING) are outside the statement (a host cannot
@@ -70,7 +81,8 @@ def make(M, N):
             "i_nump": i.handshakes_in.number_of_packets, "i_nseq": i.handshakes_in.next_sequence,
             "i_retry": i.handshakes_in.retry_required,
             "o_nrdy": i.handshakes_out.send_nrdy, "o_erdy": i.handshakes_out.send_erdy,
-            "o_hs_ep": i.handshakes_out.endpoint_number, "i_done": i.handshakes_out.done, "i_ep_reset": i.ep_reset})
+            "o_hs_ep": i.handshakes_out.endpoint_number, "i_done": i.handshakes_out.done, "i_ready": i.handshakes_out.ready,
+            "i_ep_reset": i.ep_reset})
         I, O = ts.inputs, dict(ts.outputs)
         for n in [n for n in I if n.startswith("o_")]:
             # an interface output the unit does not drive at all: in hardware it keeps its reset value (0)
@@ -90,6 +102,10 @@ def make(M, N):
         fill, tended, tcomp = g("fill", LW), g("tended", 1), g("tcomp", 1)
         phase, widx, onbus = g("phase", 2), g("widx", LW), g("onbus", 1)
         seq, nrdy_out = g("seq", 5), g("nrdy_out", 1)
+        # handshake generator interface (documented in HandshakeGeneratorInterface; proved for the generator in C45): a request is
+        # taken up in a cycle in which the generator shows `ready`; `done` reports the completion of the packet it is working on.
+        # acc : the ERDY being requested has been taken up (ready was seen while it was requested) and is not yet completed
+        acc = g("erdy_accepted", 1)
 
         ack_us = z3.And(B(I["i_ack"]), I["i_ep"] == N)
         wants_more = I["i_nump"] != 0
@@ -121,6 +137,7 @@ def make(M, N):
         s_zlp = z3.Or(z3.And(req_idle, head == ZLP), z3.And(req_ack, head_n == ZLP), z3.And(rty, head == ZLP))
         s_start = z3.Or(z3.And(req_idle, head == DATA), z3.And(req_ack, head_n == DATA), z3.And(rty, head == DATA))
         s_erdy = z3.And(phase == IDLE, head != EMPTY, B(nrdy_out))
+        erdy_done = z3.And(s_erdy, B(I["i_done"]), B(acc))         # the generator completes the packet it took up for this request
 
         # transmit progress
         is_last_word = z3.UGE(widx << 2, hlen)                    # the word on the bus (index widx-1) is the final one
@@ -137,8 +154,8 @@ def make(M, N):
         c.set_next(widx, z3.If(z3.Or(s_start, finished), L(0), z3.If(loads, widx + 1, z3.If(phase == SENDING, widx, L(0)))))
         c.set_next(onbus, z3.And(z3.Not(s_start), z3.If(move, loads, B(onbus))))
         c.set_next(seq, z3.If(B(I["i_ep_reset"]), bvc(0, 5), z3.If(adv, seq + 1, seq)))
-        c.set_next(nrdy_out, z3.Or(s_nrdy, z3.And(B(nrdy_out), z3.Not(z3.And(s_erdy, B(I["i_done"]))),
-                                                  z3.Not(z3.Or(s_start, s_zlp)))))
+        c.set_next(nrdy_out, z3.Or(s_nrdy, z3.And(B(nrdy_out), z3.Not(erdy_done), z3.Not(z3.Or(s_start, s_zlp)))))
+        c.set_next(acc, z3.And(s_erdy, z3.Not(erdy_done), z3.Not(z3.Or(s_start, s_zlp)), z3.Or(B(acc), B(I["i_ready"]))))
 
         # ---------------------------------------------------------------- refinement map
         fsm = ts.fsm("fsm_state")
@@ -158,7 +175,9 @@ def make(M, N):
                                      z3.Implies(phase != SENDING, z3.And(z3.Not(B(onbus)), widx == 0)),
                                      z3.Implies(phase == SENDING, z3.And(z3.ULE((widx << 2), hlen + 3),
                                                                          B(onbus) == (widx != 0))),
-                                     z3.Implies(phase != IDLE, z3.Not(B(nrdy_out)))))
+                                     z3.Implies(phase != IDLE, z3.Not(B(nrdy_out))),
+                                     z3.Implies(B(acc), z3.And(phase == IDLE, head != EMPTY, B(nrdy_out)))))
+        c.try_inv("erdy_accepted_register", lambda: B(ts.sig("erdy_accepted")) == B(acc))
         c.inv("tail", z3.And(zx(w_fill, LW) == fill, w_ended == B(tended),
                              B(tcomp) == z3.Or(B(tended), z3.UGT(fill + 4, L(M))),
                              z3.Implies(z3.Not(B(tended)), fill & 3 == 0),
@@ -258,6 +277,8 @@ def make(M, N):
         c.cover("nrdy", B(O["o_nrdy"]))
         c.cover("nrdy_on_ack", z3.And(B(O["o_nrdy"]), adv))
         c.cover("erdy", B(O["o_erdy"]))
+        c.cover("erdy_completed", erdy_done)
+        c.cover("done_of_an_earlier_packet_while_erdy_is_requested", z3.And(s_erdy, B(I["i_done"]), z3.Not(B(acc))))
         shallow = M <= 32            # a ZLP needs a full-size packet first: M/4 input words and as many output words
         c.cover("zlp_after_full_packet", z3.And(B(O["o_tx_zlp"]), z3.Not(rty)), reach=shallow)
         c.cover("zlp_in_ack_cycle", z3.And(B(O["o_tx_zlp"]), req_ack), reach=shallow)
@@ -356,6 +377,16 @@ def make_mux_wiring(n):
                     z3.Implies(exactly(act, k), z3.And(eq(x.handshakes_out.ready, sh.handshakes_out.ready),
                                                        eq(x.handshakes_out.done, sh.handshakes_out.done))),
                     clause="ERDY is requested until the generator reports done: the requesting endpoint sees the generator's ready/done")
+        for k, x in enumerate(ifs):
+            c.lemma(f"ep{k}_is_told_ready_only_while_its_request_is_the_one_forwarded",
+                    z3.Implies(of(x.handshakes_out.ready) == 1,
+                               z3.And(act[k], of(sh.handshakes_out.ready) == 1,
+                                      *[eq(getattr(sh.handshakes_out, f), getattr(x.handshakes_out, f)) for f in HS_OUT_REQ + HS_OUT_PARAM])),
+                    clause="notifies the host with ERDY: whichever endpoints request at the same time, the generator's `ready` (= request taken "
+                           "up) is shown only to the endpoint whose request (strobes and parameters) is the one the generator sees - so two "
+                           "endpoints never both take one acceptance for their own")
+            c.lemma(f"ep{k}_sees_done_whenever_it_is_requesting", z3.Implies(act[k], eq(x.handshakes_out.done, sh.handshakes_out.done)),
+                    clause="the completion of the packet in progress is shown to every requesting endpoint (the accepted one recognises its own)")
         c.lemma("no_handshake_request_without_a_requesting_endpoint",
                 z3.Implies(z3.Not(z3.Or(*act)), z3.And(*[of(getattr(sh.handshakes_out, f)) == 0 for f in HS_OUT_REQ])),
                 clause="transaction packets are only sent on an endpoint's request")
@@ -494,6 +525,13 @@ def raw_stream_to_phy(c, ts, arb, index, entry, producer, name, phy, label):
                    f"physical layer's ready reaches {name}")
 
 
+def path_of(ts, inst):
+    """hierarchical module path (as used by ts.sig) of a sub-Elaboratable instance found with ts.instance(): robust against the
+    parent renaming its m.submodules entry"""
+    info = ts.design.fragments[ts.design.elaboratables[inst]]
+    return ts._strip(".".join(info.name[1:]))
+
+
 def instance_is_contracted_unit(c, ts, path, inst, ref, inputs, outputs, label, clause):
     """Call obligation for a parameterised sub-unit: the instance `inst` that the parent's elaborate() created (module path `path`
     in the parent netlist `ts`) is the unit that the unit-level contract verifies - `ref`, the same class elaborated separately
@@ -605,12 +643,100 @@ def link_layer_data_tx_wiring(c):
     lemmas_packets_reach_the_phy(c, U)
 
 
+def device_wiring(c):
+    """USBSuperSpeedDevice.elaborate() with two real SuperSpeedStreamInEndpoints (endpoints 1 and 2) added: the real endpoints sit
+    behind the real multiplexer, protocol layer and link layer.  End-to-end call obligations from each endpoint's interface to the
+    DataPacketTransmitter / TransactionPacketGenerator / TransactionPacketReceiver instances, for all states of everything."""
+    from luna.gateware.interface.pipe import PIPEInterface
+    from luna.gateware.usb.usb3.device import USBSuperSpeedDevice
+    from luna.gateware.usb.usb3.protocol.endpoint import SuperSpeedEndpointMultiplexer
+    from luna.gateware.usb.usb3.protocol.layer import USB3ProtocolLayer
+    from luna.gateware.usb.usb3.protocol.transaction import TransactionPacketGenerator, TransactionPacketReceiver
+    from luna.gateware.usb.usb3.link.layer import USB3LinkLayer
+    from luna.gateware.usb.usb3.link.data import DataPacketTransmitter
+    pipe = PIPEInterface(width=4)
+    d = USBSuperSpeedDevice(phy=pipe, sync_frequency=50e6)
+    eps = [SuperSpeedStreamInEndpoint(endpoint_number=1, max_packet_size=16), SuperSpeedStreamInEndpoint(endpoint_number=2, max_packet_size=64)]
+    for e in eps:
+        d.add_endpoint(e)
+    ports = {(k + "_pin" if k.endswith(("_clk", "_rst")) else k): v for k, v in signals_of(pipe, "pipe_").items()}   # (not clock domains)
+    ports.update(signals_of(d, "dev_"))
+    for k, e in enumerate(eps):
+        ports.update(signals_of(e.stream, f"ep{k + 1}_stream_"))
+    ts = c.unit(d, ports)
+    of = ts.of
+    S = lambda a, b: same(ts, a, b)
+    mux, proto, link = ts.instance(SuperSpeedEndpointMultiplexer), ts.instance(USB3ProtocolLayer), ts.instance(USB3LinkLayer)
+    dtx, gen, rxr = ts.instance(DataPacketTransmitter), ts.instance(TransactionPacketGenerator), ts.instance(TransactionPacketReceiver)
+    sh, pe = mux.shared, proto.endpoint_interface
+    c.lemma("every_added_endpoint_is_a_multiplexer_interface",
+            z3.BoolVal(len(mux._interfaces) == len(eps) and all(a is e.interface for a, e in zip(mux._interfaces, eps))))
+    # ---- device level: multiplexer's shared interface <-> protocol layer's endpoint interface, field by field
+    c.lemma("protocol_tx_is_multiplexer_shared_tx",
+            z3.And(stream_same(ts, pe.tx, sh.tx, TX_STREAM), S(sh.tx.ready, pe.tx.ready), *[S(getattr(pe, f), getattr(sh, f)) for f in TX_HEADER]),
+            clause="tx stream (valid, payload, first, last; ready back) and tx_zlp / tx_length / tx_endpoint_number / tx_sequence_number / "
+                   "tx_direction of the protocol layer are the multiplexer's shared ones")
+    c.lemma("protocol_handshakes_are_multiplexer_shared_handshakes",
+            z3.And(record_same(ts, pe.handshakes_out, sh.handshakes_out), record_same(ts, sh.handshakes_in, pe.handshakes_in)),
+            clause="every field of handshakes_out (requests and parameters to the generator, ready / done back) and of handshakes_in")
+    c.lemma("multiplexer_rx_is_protocol_rx",
+            z3.And(stream_same(ts, sh.rx, pe.rx, TX_STREAM), record_same(ts, sh.rx_header, pe.rx_header), S(sh.rx_complete, pe.rx_complete),
+                   S(sh.rx_invalid, pe.rx_invalid)), clause="(OUT direction) receive path")
+    c.lemma("layers_share_the_device_address", z3.And(S(link.current_address, proto.current_address), S(dtx.address, gen.address)),
+            clause="data headers and transaction packets carry the same device address register")
+    # ---- end to end, per real endpoint
+    sel = [z3.Or(of(e.interface.tx.valid) != 0, of(e.interface.tx_zlp) == 1) for e in eps]
+    act = [z3.Or(*[of(getattr(e.interface.handshakes_out, f)) == 1 for f in HS_OUT_REQ]) for e in eps]
+    for k, e in enumerate(eps):
+        i, n = e.interface, k + 1
+        c.lemma(f"ep{n}_data_and_header_parameters_reach_the_data_packet_transmitter",
+                z3.Implies(exactly(sel, k), z3.And(
+                    S(dtx.data_sink.valid, i.tx.valid), S(dtx.send_zlp, i.tx_zlp), S(dtx.sequence_number, i.tx_sequence_number),
+                    S(dtx.endpoint_number, i.tx_endpoint_number), S(dtx.direction, i.tx_direction),
+                    z3.Implies(of(i.tx.valid) != 0, z3.And(stream_same(ts, dtx.data_sink, i.tx, TX_STREAM), S(dtx.data_length, i.tx_length),
+                                                           S(i.tx.ready, dtx.data_sink.ready))))),
+                clause="answers an IN request with a data packet / consecutive sequence numbers / ZLP transfer ends: what the link layer's "
+                       "DataPacketTransmitter samples (stream, send_zlp, sequence number, endpoint number, direction, length) is the "
+                       "transmitting endpoint's, in data cycles and in the cycle of a ZLP strobe")
+        c.lemma(f"ep{n}_nrdy_erdy_requests_reach_the_transaction_packet_generator",
+                z3.Implies(exactly(act, k), z3.And(*[S(getattr(gen.interface, f), getattr(i.handshakes_out, f)) for f in HS_OUT_REQ + HS_OUT_PARAM],
+                                                   S(i.handshakes_out.done, gen.interface.done), S(i.handshakes_out.ready, gen.interface.ready))),
+                clause="NRDY otherwise / notifies the host with ERDY: the requesting endpoint's strobes and parameters are the generator's "
+                       "inputs, and it sees the generator's ready / done")
+        c.lemma(f"ep{n}_sees_the_transaction_packet_receiver_and_configuration_changes",
+                z3.And(record_same(ts, i.handshakes_in, rxr.interface), S(i.ep_reset, sh.config_changed)),
+                clause="for any host behaviour: the endpoint's handshakes_in is the TransactionPacketReceiver's report")
+    # ---- the generator's `done` completes an endpoint's ERDY request only if it is the ERDY packet of that endpoint
+    # Discharges the reading of handshakes_out.ready / done in the endpoint contract above (ghost `erdy_accepted`): spec-side
+    # ghost per endpoint, defined on the endpoint's interface signals only: its ERDY request was shown `ready` and has not been
+    # completed or withdrawn since.  Invariant / ensure are stated on the generator's public header queue.
+    taken = z3.And(of(gen.header_source.valid) == 1, of(gen.header_source.ready) == 1)
+    dw0, dw1 = of(gen.header_source.header.dw0), of(gen.header_source.header.dw1)
+    for k, e in enumerate(eps):
+        ho, n = e.interface.handshakes_out, k + 1
+        req, rdy, done = of(ho.send_erdy) == 1, of(ho.ready) == 1, of(ho.done) == 1
+        acc = c.ghost(f"ep{n}_erdy_accepted", 1)
+        c.set_next(acc, z3.And(req, z3.Not(z3.And(done, acc == 1)), z3.Or(acc == 1, rdy)))
+        erdy_packet_for_ep = z3.And(of(gen.header_source.valid) == 1, z3.Extract(4, 0, dw0) == 4, z3.Extract(3, 0, dw1) == 3,
+                                    z3.Extract(11, 8, dw1) == n)
+        c.inv(f"ep{n}_accepted_erdy_request_is_the_packet_the_generator_offers", z3.Implies(z3.And(acc == 1, req), erdy_packet_for_ep))
+        c.ensure(f"ep{n}_done_after_acceptance_is_its_erdy_packet_being_taken",
+                 z3.Implies(z3.And(req, acc == 1, done), z3.And(erdy_packet_for_ep, taken)),
+                 clause="notifies the host with ERDY once data becomes available after an NRDY: the `done` that ends an endpoint's (accepted) "
+                        "ERDY request is the cycle in which an ERDY transaction packet for that endpoint is taken by the link layer")
+        c.cover(f"ep{n}_erdy_accepted", acc == 1, reach=False)
+    c.cosim_cycles = 4
+
+
 def contracts(tier):
     yield ("SuperSpeedStreamInEndpoint", "mps16_ep1", make(16, 1))
+    yield ("USBSuperSpeedDevice", "wiring_two_in_endpoints", device_wiring)
     yield ("USB3LinkLayer", "wiring_data_tx", link_layer_data_tx_wiring)
     yield ("USB3ProtocolLayer", "wiring_endpoint_interface", protocol_layer_wiring)
     yield ("SuperSpeedEndpointMultiplexer", "wiring_3_endpoints", make_mux_wiring(3))
     if tier == "thorough":
+        yield ("SuperSpeedEndpointMultiplexer", "wiring_1_endpoint", make_mux_wiring(1))
+        yield ("SuperSpeedEndpointMultiplexer", "wiring_5_endpoints", make_mux_wiring(5))
         yield ("SuperSpeedStreamInEndpoint", "mps1024_ep1", make(1024, 1))
         yield ("SuperSpeedStreamInEndpoint", "mps8_ep3", make(8, 3))
         yield ("SuperSpeedStreamInEndpoint", "mps512_ep15", make(512, 15))
